@@ -860,7 +860,7 @@ func c05Replay(pl json.RawMessage) (string, []core.Violation) {
 func init() {
 	core.Register(&core.PropSpec{
 		ID: "C05", Level: "model_checking",
-		Rule:     "(a) grouping: plugin tokens X,Y (infix), P (prefix), Q (postfix) registered through the public builders; for every level 1..13 of X (x level 7 of Y quick; x every level of Y thorough) every flat operator string x o y o z (and x o y o z o w thorough) over the 16 built-in binary/assignment operators + X + Y, undecorated and with every single decoration of every operand by a prefix {-,!,++,P} and/or suffix {++,Q,(),.p,[1],(d)}, is parsed by the real parser and compared with the precedence-climbing reference R-prec (infix level L = left-associative at L, prefix operand at unary level, postfix at call level, assignment right-associative, targets must be assignable); plus a substitution oracle: X at a level that has a built-in binary operator groups exactly like that operator. (b) registry: every history <= depth 4 (5 thorough) over 25 calls {RegisterTokenType x3, RegisterPrefix/Infix(2 levels)/Postfix on two custom tokens and on + ! ++ (} on one builder pair, calls on custom tokens enabled once their type is registered, replayed on fresh builders in lock-step with the registry model R-reg: ids stable per name, distinct across names, above every built-in id; occupied role => error, free role => no error; after every step a probe set of 38 inputs parses to what R-prec predicts for the MODEL's table (so a refused registration provably left the parser unchanged; from depth 4 on, the probes that mention the token of the last call). states = distinct registry model states, transitions = history steps executed on the real builders; non-trivial = operator string in which a plugin operator has a built-in operator within two tokens (every string is distinct)",
+		Rule:     "(a) grouping: plugin tokens X,Y (infix), P (prefix), Q (postfix) registered through the public builders; for every level 1..13 of X (x level 7 of Y quick; x every level of Y thorough) every flat operator string x o y o z (and x o y o z o w thorough) over the 16 built-in binary/assignment operators + X + Y, undecorated and with every single decoration of every operand by a prefix {-,!,++,P} and/or suffix {++,Q,(),.p,[1],(d)}, is parsed by the real parser and compared with the precedence-climbing reference R-prec (infix level L = left-associative at L, prefix operand at unary level, postfix at call level, assignment right-associative, targets must be assignable); plus a substitution oracle: X at a level that has a built-in binary operator groups exactly like that operator. (b) registry: every history <= depth 4 (5 thorough) over 25 calls {RegisterTokenType x3, RegisterPrefix/Infix(2 levels)/Postfix on two custom tokens and on + ! ++ (} on one builder pair, calls on custom tokens enabled once their type is registered, replayed on fresh builders in lock-step with the registry model R-reg: ids stable per name, distinct across names, above every built-in id; occupied role => error, free role => no error; after every step a probe set of 38 inputs parses to what R-prec predicts for the MODEL's table (so a refused registration provably left the parser unchanged; from depth 4 on, the probes that mention the token of the last call). states = distinct registry model states, transitions = history steps executed on the real builders; non-trivial = operator string in which a plugin operator has a built-in operator within two tokens (every string is distinct) Added: a parser is built and a mini probe set parsed between any two registrations of every history; probes on tokens holding a prefix and a postfix/infix role; operators registered after k in {1,15..17,31..33,63..65,127..129,255..257,1000} other token types; long flat operator strings of 9..257 operators over 5 operator cycles.",
 		Assume:   []string{"registering a postfix role on a token that has an infix role (or the reverse) is not constrained: probes with such tokens are skipped, postfix on ( is not in the alphabet", "plugin createExpr callbacks always request their operand"},
 		QuickSec: 240, ThorSec: 1800, Run: c05Run, Replay: c05Replay,
 		Evals: "grouping_cases", Nontriv: "cases_mixing_plugin_and_builtin_operators", States: "registry_states", Trans: "registry_transitions",
